@@ -130,6 +130,12 @@ def configs(tier):
                 for k in range(3):
                     c.append({"gene": g, "genome": genome, "cn": extra, "mode": "noise",
                               "support": k})
+        # shipped genes with <= 7 core variants: every support pattern, noisy and planted
+        for g in ("abcg2", "cyp2r1", "cacna1s", "cyp3a7", "ifnl3", "cyp3a43", "cyp4f2",
+                  "gstp1", "cyp2s1", "cyp2w1", "comt", "ugt1a1", "cyp2f1"):
+            for genome in ("hg19", "hg38"):
+                for mode in ("noise", "planted"):
+                    c.append({"gene": g, "genome": genome, "cn": ["1", "1"], "mode": mode})
         for genome in ("hg19", "hg38"):
             for st in (["1", "1", "1", "1"], ["1", "1", "4", "5"]):
                 c.append({"gene": "toy", "genome": genome, "cn": st, "mode": "noise"})
